@@ -915,7 +915,11 @@ func (s *c03State) step() bool {
 func c03(c *core.Ctx) {
 	selfCheckOracles()
 	maxOps := int(c.N(12, 40))
-	c.Section("sequences", c.N(20000, 3000000), func(i int64, r *gen.Rand) {
+	nSeq := c.N(20000, 3000000)
+	if c.Config != "rel" && c.Config != "dbg" {
+		nSeq = c.N(20000, 1000000) // the 32-bit worker: the same sequences, the first million of them in the thorough tier
+	}
+	c.Section("sequences", nSeq, func(i int64, r *gen.Rand) {
 		s := &c03State{c: c, r: r}
 		if r.Chance(1, 3) {
 			// a message built earlier in the same program, with several buffer growths behind it
